@@ -514,15 +514,27 @@ func (t *Teamserver) Start() {
 	}
 
 	for _, Agent := range Agents {
-		// check if the agent has a parent
+		var ID, _ = strconv.ParseInt(Agent.NameID, 16, 64)
+
+		// check if the agent has a parent. only live sessions are restored: a link whose other
+		// end is not among them is dropped here and in the database (it would come back to
+		// life, out of step with the sessions, once that agent registers again)
 		parentID, err := t.ParentOf(Agent)
 		if err == nil {
-			Agent.Pivots.Parent = t.AgentInstance(parentID)
+			if Parent := t.AgentInstance(parentID); Parent != nil {
+				Agent.Pivots.Parent = Parent
+			} else if err := t.DB.LinkRemove(parentID, int(ID)); err != nil {
+				logger.Error("Could not remove stale link from database: " + err.Error())
+			}
 		}
 		// check if the agent has any links
 		AgentsIDs := t.LinksOf(Agent)
 		for _, AgentID := range AgentsIDs {
-			Agent.Pivots.Links = append(Agent.Pivots.Links, t.AgentInstance(AgentID))
+			if Link := t.AgentInstance(AgentID); Link != nil {
+				Agent.Pivots.Links = append(Agent.Pivots.Links, Link)
+			} else if err := t.DB.LinkRemove(int(ID), AgentID); err != nil {
+				logger.Error("Could not remove stale link from database: " + err.Error())
+			}
 		}
 	}
 
